@@ -351,9 +351,10 @@ OnSleep(c, m, ev) ==
     LET total == m.sumSleep + ev.s
         full  == m.fullSleeps /\ (ev.t1 - ev.t >= ev.s)
         m1 == Checks(m, <<
-          <<ev.us >= 0,                              "C02:negative-sleep">>,
+          <<ev.ut >= 0,                              "C02:negative-sleep">>,
           \* "the time then remaining": when the delay was computed (hooks may take time after that)
-          <<ev.us <= (c.D - (IF m.nstrat > 0 THEN m.tstrat ELSE ev.t)) * 15625,
+          <<LET rem == c.D - (IF m.nstrat > 0 THEN m.tstrat ELSE ev.t)
+            IN  ev.ut < rem \/ (ev.ut = rem /\ ev.us = 0),
                                                      "C02:sleep-longer-than-remaining-time">>,
           <<~full \/ ev.s < 0 \/ total <= c.D,       "C02:total-sleep-exceeds-deadline">>,
           <<m.phase = "failed" => ~(m.ft >= c.D),    "C02:backoff-after-failure-at-or-after-deadline">>,
